@@ -203,6 +203,8 @@ class Family:
             if st == "csv" and (i // 4) % 5 == 2:
                 # a csv dialect other than the default one (the database is opened with these keyword arguments)
                 csvkw = DIALECTS[(i // 20) % len(DIALECTS)]
+                if g.r.random() < 0.6:
+                    g.hard = True             # quotes, delimiters, line breaks under that dialect
             if (i // 4) % 7 == 3:
                 g.wide = True                 # numbers with colliding hashes as values and operands
             bulk = 0
@@ -280,7 +282,7 @@ class Family:
     def run(self, tier, model_ok, search):
         res = Result()
         with_probes = self.prop == "C06"
-        n = {"quick": 8000, "thorough": 160000}[tier]
+        n = {"quick": 8000, "thorough": 100000}[tier]
         if with_probes:
             n //= 3
         if search:
@@ -339,6 +341,7 @@ class Family:
                 break
         if self.prop == "C11":
             res.findings += self.aliased_rollback()
+            res.findings += self.error_scenarios()
         if self.prop == "C06":
             res.findings += self.failed_rebuild()
         res.findings.sort(key=lambda f: (f.signature is not None, f.kind == "correspondence"))
@@ -378,6 +381,121 @@ class Family:
                         f"memory storage, the same Point object inserted {n_alias} times: after update_all raised, contents are {after}, before the call {before}",
                         dict(family="hist-alias", aliases=n_alias, fail_on=fail_on, observed=after, expected=before)))
         return out[:1]
+
+    def error_scenarios(self, only=None):
+        """calls that raise for reasons the line protocol has no term for — a static update value that passes
+        validation and overflows when normalised, a user `test` function that raises on a later point of a scan,
+        a row the text layer refuses (lone surrogate, unencodable character, QUOTE_NONE without escapechar): the
+        contents must be what they were (insert_multiple: plus the accepted prefix), a valid index must equal a
+        rebuilt one, and the database must stay usable"""
+        import csv
+        import shutil
+        import tempfile
+        from datetime import datetime, timedelta, timezone
+
+        tf = C.import_tinyflux()
+        from tinyflux.index import Index
+        from tinyflux.storages import MemoryStorage
+        from impl import ImplRunner
+
+        T = V.dt_of(G.T0)
+        sec = timedelta(seconds=1)
+
+        def boom(v):
+            if v == "y":
+                raise RuntimeError("the user's test function raised")
+            return True
+
+        def late(tags):
+            return tf.Point(time=T + 9 * sec, tags=tags)
+
+        far = datetime.max.replace(tzinfo=timezone(timedelta(hours=-1)))
+        near = datetime.min.replace(tzinfo=timezone(timedelta(hours=1)))
+        scen = [
+            ("update_all(time=datetime.max at UTC-1)", {}, lambda db: db.update_all(time=far), 0),
+            ("update(a == 'x', time=datetime.min at UTC+1)", {}, lambda db: db.update(tf.TagQuery().a == "x", time=near), 0),
+            ("update(a.test(raises on the 3rd point), tags={'z': '1'})", {},
+             lambda db: db.update(tf.TagQuery().a.test(boom), tags={"z": "1"}), 0),
+            ("update(a.test(raises on the 3rd point), fields=callable)", {},
+             lambda db: db.update(tf.TagQuery().a.test(boom), fields=lambda f: {"f": f["f"] + 100}), 0),
+            ("update(a.test(raises), unset_fields='f')", {},
+             lambda db: db.update(tf.TagQuery().a.test(boom), unset_fields="f"), 0),
+            ("remove(a.test(raises on the 3rd point))", {}, lambda db: db.remove(tf.TagQuery().a.test(boom)), 0),
+            ("insert(tag value with a lone surrogate)", {}, lambda db: db.insert(late({"a": "\ud800"})), 0),
+            ("insert_multiple([ok, lone surrogate, ok])", {},
+             lambda db: db.insert_multiple([late({"a": "ok"}), late({"a": "\udfff"}), late({"a": "ok2"})]), 1),
+            ("measurement('m').insert(key with a lone surrogate)", {},
+             lambda db: db.measurement("m").insert(late({"k\ud800": "v"})), 0),
+            ("insert(non-ASCII text) into an ascii file", {"encoding": "ascii"}, lambda db: db.insert(late({"a": "é"})), 0),
+            ("insert(text with the delimiter) under QUOTE_NONE", {"quoting": csv.QUOTE_NONE},
+             lambda db: db.insert(late({"a": "x,y"})), 0),
+        ]
+        out = []
+        root = tempfile.mkdtemp(prefix="vf_err_")
+        R = ImplRunner.__new__(ImplRunner)
+        R.tf = tf
+        n = 0
+        try:
+            for st in ("mem", "csv"):
+                for au in (True, False):
+                    for name, kw, call, prefix in scen:
+                        if only is not None and name != only:
+                            continue
+                        n += 1
+                        if st == "mem":
+                            db = tf.TinyFlux(storage=MemoryStorage, auto_index=au)
+                        else:
+                            db = tf.TinyFlux(os.path.join(root, f"e{n}.csv"), auto_index=au, **kw)
+
+                        def contents(db=db):
+                            return [V.show_point(db._storage._deserialize_storage_item(i)) for i in db._storage]
+
+                        for i, a in enumerate(["x", "x", "y", "x"]):
+                            db.insert(tf.Point(time=T + i * sec, tags={"a": a}, fields={"f": i}))
+                        before = contents()
+                        try:
+                            call(db)
+                            raised = None
+                        except Exception as e:
+                            raised = type(e).__name__
+                        problems = []
+                        try:
+                            after = contents()
+                        except Exception as e:
+                            after = ["UNREADABLE " + type(e).__name__]
+                        if raised is not None:
+                            if after[:len(before)] != before or len(after) != len(before) + (prefix if st == "csv" or True else 0):
+                                # memory storage accepts every text: nothing raises there for the text scenarios
+                                problems.append(f"contents after the call raised {raised}: {after} (before: {before}, accepted prefix: {prefix})")
+                            if db.index.valid:
+                                fresh = Index()
+                                fresh.build([db._storage._deserialize_storage_item(i) for i in db._storage])
+                                for pr in probes():
+                                    a1, a2 = R._idx_answer(db.index, pr), R._idx_answer(fresh, pr)
+                                    if a1 != a2:
+                                        problems.append(f"the index claims to be valid but {V.sx(pr)} answers {a1}, a rebuilt index {a2}")
+                                        break
+                            try:
+                                k0 = len(after)
+                                db.insert(tf.Point(time=T + 20 * sec, tags={"a": "after"}))
+                                c = db.count(tf.TagQuery().a == "after")
+                                ln = len(db)
+                                if c != 1 or ln != k0 + 1:
+                                    problems.append(f"after the failed call: insert then count(a == 'after') = {c}, len = {ln} (expected 1, {k0 + 1})")
+                            except Exception as e:
+                                problems.append(f"the database is not usable after the failed call: {type(e).__name__}: {e}")
+                        try:
+                            db.close()
+                        except Exception:
+                            pass
+                        if problems:
+                            out.append(Finding(
+                                "impl-vs-spec", f"{st}/{'auto' if au else 'noauto'}: {name}: " + "; ".join(problems)[:700],
+                                dict(family="hist-error-scenario", scenario=name, storage=st, auto_index=au,
+                                     observed=problems[:3], expected="contents unchanged, valid index == rebuilt, usable")))
+        finally:
+            shutil.rmtree(root, ignore_errors=True)
+        return out[:2]
 
     def failed_rebuild(self):
         """a rebuild of the index that fails part-way (a transient read error after k rows of the scan) must
@@ -499,6 +617,13 @@ def signature(case, d):
 
 
 def replay(payload):
+    if payload.get("family") == "hist-error-scenario":
+        r = Family("C11").error_scenarios(only=payload.get("scenario"))
+        for f in r:
+            print(f.summary)
+        if not r:
+            print("the scenario passes")
+        return bool(r)
     if payload.get("family") == "hist-failed-rebuild":
         r = Family("C06").failed_rebuild()
         print(r[0].summary if r else "failed-rebuild scenario passes")
